@@ -25,7 +25,7 @@ func (o mgrOp) String() string {
 
 var mgrOps = func() []mgrOp {
 	var ops []mgrOp
-	for _, m := range []string{"PauseTable", "CloseTable", "ReleaseTable", "StartTableGame", "SetUpTableGame", "UpdateBlind", "GetTableEngine", "UpdateTablePlayers+", "UpdateTablePlayers-"} {
+	for _, m := range []string{"PauseTable", "CloseTable", "ReleaseTable", "StartTableGame", "SetUpTableGame", "UpdateBlind", "UpdateBlind=", "GetTableEngine", "UpdateTablePlayers+", "UpdateTablePlayers-"} {
 		ops = append(ops, mgrOp{method: m})
 	}
 	for _, m := range []string{"PlayerReserve", "PlayerJoin", "PlayerSettlementFinish", "PlayerRedeemChips", "PlayersLeave", "PlayerExtendActionDeadline",
@@ -147,6 +147,17 @@ func callBoth(m pt.Manager, p *mgrPair, id string, op mgrOp, newID string) (stri
 		a = r(m.UpdateBlind(id, 2, 0, 0, 2, 4))
 		if te != nil {
 			te.UpdateBlind(2, 0, 0, 2, 4)
+			b = "<nil>"
+		}
+	case "UpdateBlind=":
+		// same level number as the table's current one, other amounts (ante switched on, blinds corrected)
+		lvl := 1
+		if te != nil {
+			lvl = te.GetTable().State.BlindState.Level
+		}
+		a = r(m.UpdateBlind(id, lvl, 1, 0, 3, 6))
+		if te != nil {
+			te.UpdateBlind(lvl, 1, 0, 3, 6)
 			b = "<nil>"
 		}
 	case "GetTableEngine":
